@@ -117,7 +117,7 @@ package node
 //@ func (ctrler *RigoApp) CheckTx(req)
 //@   objinv wf_app(ctrler) && ctrler.lastBlockCtx != nil
 //@   modifies everything
-//@   preserves RigoApp.*, BlockContext.*, Config.*
+//@   preserves RigoApp.*, BlockContext.blockInfo, BlockContext.feeSum, BlockContext.appHash, BlockContext.GovHandler, BlockContext.AcctHandler, BlockContext.StakeHandler, BlockContext.ValUpdates, Config.*
 //@   assert@call(NewTrxContext,0): $arg3 == false                                                             [C06]
 
 // a query is answered at the requested height, or at the last committed height when none is given
